@@ -148,7 +148,7 @@ def case_decompress(batch, sbits, rule, d, klass='decompress', expect=None, side
     return out
 
 
-def parse_model_match(line):
+def parse_model_match(line, visible=None):
     if not line.startswith('OK'):
         return ('BAD', line)
     body = line[3:]
@@ -159,14 +159,17 @@ def parse_model_match(line):
         if t.startswith('!'):
             exc = t[1:]
         else:
-            idx.append(int(t))
+            idx.append(int(t) if visible is None else visible[int(t)])
     return ('OK', tuple(idx), exc)
 
 
 def case_match(batch, pd, rules, klass='match', extra=None, ruler=None):
     """ruler: a long-lived Ruler over `rules` to reuse (state kept between calls must not matter)"""
     npd = n_pdesc(pd)
-    nrs = [n_rule(r) for r in rules]
+    # rules of fragmentation nature are invisible to the model and to the reference: they must simply never be offered
+    from microschc.rfc8724 import RuleNature as _RN
+    visible = [i for i, r in enumerate(rules) if r.nature is not _RN.FRAGMENTATION]
+    nrs = [n_rule(rules[i]) for i in visible]
     ruler = Ruler(rules) if ruler is None else ruler
 
     def f():
@@ -180,7 +183,7 @@ def case_match(batch, pd, rules, klass='match', extra=None, ruler=None):
         return ('OK', tuple(got), exc)
     out = f()
     line = ' '.join(['S', 'match'] + pdesc_tokens(npd) + rules_tokens(nrs))
-    want = tuple(i for i, nr in enumerate(nrs) if ref_rule_applies(npd, nr))
+    want = tuple(visible[i] for i, nr in enumerate(nrs) if ref_rule_applies(npd, nr))
     fails = []
     if out[2] is not None:
         fails.append('matcher raised %s' % out[2])
@@ -189,5 +192,5 @@ def case_match(batch, pd, rules, klass='match', extra=None, ruler=None):
     desc = dict(layer='schc', op='match', pdesc=npd, rules=nrs)
     if extra:
         desc.update(extra)
-    batch.add(klass, line, out, parse_model_match, fails, desc, key=('match', line))
+    batch.add(klass, line, out, (lambda l, v=visible: parse_model_match(l, v)), fails, desc, key=('match', line, id(ruler) if ruler is not None else 0))
     return out
